@@ -9,7 +9,9 @@ import (
 
 	"github.com/NVIDIA/KAI-scheduler/pkg/scheduler/api"
 	"github.com/NVIDIA/KAI-scheduler/pkg/scheduler/api/common_info"
+	"github.com/NVIDIA/KAI-scheduler/pkg/scheduler/api/pod_status"
 	"github.com/NVIDIA/KAI-scheduler/pkg/scheduler/api/podgroup_info"
+	"github.com/NVIDIA/KAI-scheduler/pkg/scheduler/api/podgroup_info/subgroup_info"
 	"github.com/NVIDIA/KAI-scheduler/pkg/scheduler/api/queue_info"
 	"github.com/NVIDIA/KAI-scheduler/pkg/scheduler/framework"
 	"github.com/NVIDIA/KAI-scheduler/pkg/scheduler/log"
@@ -204,6 +206,23 @@ func (mr *minruntimePlugin) cacheReclaimProtection(pendingJob *podgroup_info.Pod
 	mr.reclaimProtectionCache[pendingJob.UID][victim.UID] = protected
 }
 
+// countRunningBeforeScenario counts the pods of the pod set that were running before the scenario's virtual
+// evictions. Pods that are really terminating (deleted or evicted before this scenario) are not running any more
+// and must not be counted, otherwise a protected elastic workload can be shrunk below its minimum.
+func countRunningBeforeScenario(podSet *subgroup_info.PodSet) int32 {
+	count := int32(0)
+	for _, task := range podSet.GetPodInfos() {
+		if !pod_status.IsActiveUsedStatus(task.Status) {
+			continue
+		}
+		if task.Status == pod_status.Releasing && !task.IsVirtualStatus {
+			continue
+		}
+		count++
+	}
+	return count
+}
+
 func validVictimForMinAvailable(victimInfo *api.VictimInfo) bool {
 	numVictimTasksPerSubGroup := map[string]int32{}
 	for _, task := range victimInfo.Tasks {
@@ -216,7 +235,7 @@ func validVictimForMinAvailable(victimInfo *api.VictimInfo) bool {
 
 	numCurrentlyRunningSubGroup := map[string]int32{}
 	for subGroupName := range numVictimTasksPerSubGroup {
-		numCurrentlyRunningSubGroup[subGroupName] = int32(victimInfo.Job.GetSubGroups()[subGroupName].GetNumActiveUsedTasks())
+		numCurrentlyRunningSubGroup[subGroupName] = countRunningBeforeScenario(victimInfo.Job.GetSubGroups()[subGroupName])
 	}
 
 	for subGroupName, numVictims := range numVictimTasksPerSubGroup {
